@@ -280,8 +280,11 @@ def build_case(r, kind, tier):
         else:
             faults = [{"kind": "op_err", "op": "open", "path": "left.dkvp", "nth": 0, "errno": "EACCES"}]
         verbs = [["join", "-j", "a", r.choice(["--ul", "--np", "-u", "--ur"]), "--prepipe" if False else "-i", "dkvp", "-f", "left.dkvp"]] + verbs[:1]
-        if r.chance(0.4):
+        if r.chance(0.55):
             verbs[0].insert(1, "-s")
+            if faults and faults[0]["kind"] == "read_err" and r.chance(0.6):
+                # sorted mode streams the left file: a fault near its end lies beyond where the right stream ends
+                faults[0]["at"] = max(0, len(left) - 1 - r.below(max(1, len(left) // 4)))
         # "a run that exits 0 has consumed all of its input": the left file is input, wherever the right stream ends
         case["must_fail_unfired"] = True
         if r.chance(0.3):
